@@ -464,8 +464,7 @@ let q_autostyles =
 
 let contentxml filtered refattrs prologue env d =
   let stylelist =
-    used_auto_styles refattrs (d.d_styles :: (d.d_auto :: (d.d_body :: [])))
-      d.d_auto
+    used_auto_styles refattrs (d.d_styles :: (d.d_body :: [])) d.d_auto
   in
   app prologue
     (app
